@@ -282,8 +282,8 @@ def sub_cases(c):
     if c['op'] == 'bayer_seq':
         return [dict(call, op='bayer', img=c['img'], wave=c['wave'], unit=c['unit']) for call in c['calls']]
     if c['op'] == 'adc_seq':
-        return [dict(call, op='adc', img=c['img'], gain=c['gain'], int_img=c['int_img'], img_dtype=c['img_dtype'])
-                for call in c['calls']]
+        return [dict(call, op='adc', img=c['img'], gain=call.get('gain', c['gain']), int_img=c['int_img'],
+                     img_dtype=c['img_dtype']) for call in c['calls']]
     out = []
     for call in c['calls']:
         sc = {'img': c['img'], 'img_dtype': c.get('img_dtype'), 'wave': call['wave'], 'unit': call['unit']}
@@ -356,7 +356,8 @@ def gen_qe_seq(rng):
 
 
 def gen_adc_seq(rng):
-    """ONE frame object and ONE gain object used in 2..4 adc calls that differ in capacity / warning / output type"""
+    """ONE frame object (and, unless a call brings its own, ONE gain object) used in 2..4 adc calls that differ in
+    capacity / warning / output type / gain; every call is judged against the original frame"""
     base = gen_adc(rng)
     while base['gain']['ndim'] >= 4 or adc_expected(base) is None:
         base = gen_adc(rng)
@@ -368,13 +369,20 @@ def gen_adc_seq(rng):
         c2['sat'] = None if s < 0.3 else ('0' if s < 0.36 else (str(-rng.randint(1, 5)) if s < 0.4 else str(rng.randint(1, hi))))
         c2['warn'] = rng.random() < 0.6
         c2['dtype'] = None
+        own = None
+        if rng.random() < 0.3:       # this call with its own gain object (unity, or another scalar), same frame object
+            own = unity_gain(rng.randrange(4), 1, 1) if rng.random() < 0.6 else {'ndim': 0, 'v': rnd_coef(rng, False), 'form': 'float'}
+            c2['gain'] = own
         if rng.random() < 0.6:
             exp = adc_expected(c2)
             mx = max([v for row in exp for v in row] + [0])
             cands = [d for d, lim in (('uint8', 255), ('uint16', 65535), ('int32', 2 ** 31 - 1), ('uint32', 2 ** 32 - 1),
                                       ('uint64', 2 ** 62), ('float32', 2 ** 24)) if mx <= lim]
             c2['dtype'] = rng.choice(cands) if cands else None
-        calls.append({k: c2[k] for k in ('sat', 'sat_form', 'warn', 'dtype', 'dtype_form')})
+        call = {k: c2[k] for k in ('sat', 'sat_form', 'warn', 'dtype', 'dtype_form')}
+        if own is not None:
+            call['gain'] = own
+        calls.append(call)
     return {'op': 'adc_seq', 'img': base['img'], 'int_img': base['int_img'], 'img_dtype': base['img_dtype'],
             'gain': base['gain'], 'calls': calls}
 
@@ -391,6 +399,30 @@ def rnd_coef(rng, nonneg, whole=False):
     return str(F(rng.randint(lo, 24), 8))
 
 
+def unity_gain(k, r, c):
+    """gain exactly one, in the six forms: 1, 1.0, array(1.0), [1.0], a frame of ones, a one-slice cube of ones"""
+    return [{'ndim': 0, 'v': '1', 'form': 'int'}, {'ndim': 0, 'v': '1', 'form': 'float'}, {'ndim': 0, 'v': '1', 'form': '0d'},
+            {'ndim': 1, 'v': ['1'], 'form': 'list'}, {'ndim': 2, 'v': [['1'] * c for _ in range(r)], 'form': 'ndarray'},
+            {'ndim': 3, 'v': [[['1'] * c for _ in range(r)]], 'form': 'ndarray'}][k]
+
+
+def gen_adc_cross():
+    """the cross product {gain 1 / 1.0 / array(1.0) / [1.0] / ones frame / ones cube / 2 / [1/2, -1]} x {no capacity,
+    capacity} x {frame float64 / float32 / int64 / nested list} on frames with fractional and negative counts; every frame
+    is digitised twice in a row (then a third time with another gain) and each answer is judged against the ORIGINAL frame"""
+    frac = [['-3', '-1/2', '0'], ['1/2', '5/2', '10']]
+    whole = [['-3', '-1', '0'], ['1', '2', '10']]
+    for k in range(8):
+        for sat in (None, '4'):
+            for dt in ('float64', 'float32', 'int64', 'list'):
+                g = unity_gain(k, 2, 3) if k < 6 else [{'ndim': 0, 'v': '2', 'form': 'float'},
+                                                        {'ndim': 1, 'v': ['1/2', '-1'], 'form': 'ndarray'}][k - 6]
+                call = {'sat': sat, 'sat_form': 'py', 'warn': True, 'dtype': None, 'dtype_form': 'dtype'}
+                yield {'op': 'adc_seq', 'img': whole if dt == 'int64' else frac, 'int_img': dt == 'int64', 'img_dtype': dt,
+                       'gain': g, 'calls': [dict(call), dict(call, dtype='int32'),
+                                            dict(call, gain={'ndim': 1, 'v': ['1', '3/2'], 'form': 'list'}, sat=None)]}
+
+
 HARD_POW = ['13', '26', '52', '13/2', '79/2', '13/4', '79/4', '77/2', '77/4']
 
 
@@ -400,7 +432,7 @@ def gen_adc(rng):
     hi = rng.choice([12, 30, 60])
     # frame types: float64, or integer frames (whole electrons), or float32 (|e| <= 12 in quarters: powers up to the
     # fourth stay exact in 24 bits)
-    img_dtype = rng.choice(['float64'] * 6 + ['int64', 'int32', 'float32', 'float32'])
+    img_dtype = rng.choice(['float64'] * 6 + ['int64', 'int32', 'float32', 'float32', 'list'])
     int_img = img_dtype.startswith('int')
     if img_dtype == 'float32':
         lo, hi = max(lo, -12), 12
@@ -424,6 +456,8 @@ def gen_adc(rng):
         gain = {'ndim': 2, 'v': [[rnd_coef(rng, nonneg) for _ in range(c)] for _ in range(r)]}
     else:
         gain = {'ndim': 3, 'v': [[[rnd_coef(rng, nonneg, hard) for _ in range(c)] for _ in range(r)] for _ in range(order)]}
+    if not hard and rng.random() < 0.12:      # unity gain in every form (the identity conversion: DN = floor(e))
+        gain = unity_gain(rng.randrange(6), r, c)
     t = rng.random() if not hard else 1.0
     if t < 0.04:
         gain = {'ndim': 4, 'v': [[[['1']]]]}
@@ -446,8 +480,9 @@ def gen_adc(rng):
         sat = str(F(rng.randint(1, 2 * hi), rng.choice([1, 1, 2])))
     if img_dtype == 'float32' and sat is not None and F(sat).denominator > 4:
         sat = str(F(sat).numerator)
-    gain['form'] = rng.choice(['ndarray', 'ndarray', 'list', 'tuple']) if gain['ndim'] in (1, 2, 3) else \
-        rng.choice(['float', 'float', '0d', 'int'])
+    if 'form' not in gain:
+        gain['form'] = rng.choice(['ndarray', 'ndarray', 'list', 'tuple']) if gain['ndim'] in (1, 2, 3) else \
+            rng.choice(['float', 'float', '0d', 'int'])
     case = {'op': 'adc', 'img': img, 'int_img': int_img, 'img_dtype': img_dtype, 'gain': gain, 'sat': sat,
             'sat_form': rng.choice(['py', 'py', 'np']), 'warn': rng.random() < 0.6, 'dtype': None,
             'dtype_form': rng.choice(['dtype', 'str', 'type'])}
@@ -491,6 +526,7 @@ def generate(rng, tier):
         yield gen_qe_seq(rng)
     for _ in range(40 if tier == 'quick' else 400):
         yield gen_adc_seq(rng)
+    yield from gen_adc_cross()
     if tier == 'thorough':
         for pat in itertools.product('RGB', repeat=4):
             for os_ in range(1, 6):
@@ -519,7 +555,7 @@ def nontrivial(c):
     if c['op'] == 'qe_seq':
         return len({x['unit'] for x in c['calls']}) > 1
     if c['op'] == 'adc_seq':
-        return len({(x['sat'], x['dtype'], x['warn']) for x in c['calls']}) > 1
+        return len({(x['sat'], x['dtype'], x['warn'], str(x.get('gain'))) for x in c['calls']}) > 1
     if c['op'] == 'adc':
         return c['gain']['ndim'] != 0 or c['sat'] is not None or any(F(v) < 0 for row in c['img'] for v in row)
     return True
@@ -624,6 +660,8 @@ def canon_arr(a):
 
 def mk_frame(c):
     dt = c.get('img_dtype') or ('int64' if c.get('int_img') else 'float64')
+    if dt == 'list':          # a nested Python list (array_like)
+        return [[(int(F(v)) if F(v).denominator == 1 else float(F(v))) for v in row] for row in c['img']]
     if dt.startswith('int'):
         return np.array([[int(F(v)) for v in row] for row in c['img']], dtype=np.dtype(dt))
     return np.array([[float(F(v)) for v in row] for row in c['img']], dtype=np.dtype(dt))
@@ -663,8 +701,15 @@ def call_bayer(D, c, img, wave, qr, qg, qb):
         return {'err': type(e).__name__}
 
 
+def frame_same(img, before):
+    """the caller's frame object holds exactly what it held before (values, type, shape)"""
+    if isinstance(img, list):
+        return img == before and all(type(x) is type(y) for r1, r2 in zip(img, before) for x, y in zip(r1, r2))
+    return bool(np.array_equal(img, before)) and img.dtype == before.dtype and img.shape == before.shape
+
+
 def call_adc(D, c, img, gain):
-    before = img.copy()
+    before = [list(r) for r in img] if isinstance(img, list) else img.copy()
     try:
         sat = None
         if c['sat'] is not None:
@@ -684,9 +729,9 @@ def call_adc(D, c, img, gain):
                 'shape': [int(out.shape[0]), int(out.shape[1])],
                 'dn': [[float(v) for v in row] for row in out.tolist()],
                 'dtype': str(out.dtype),
-                'input_unchanged': bool(np.array_equal(img, before)) and img.dtype == before.dtype}
+                'input_unchanged': frame_same(img, before)}
     except Exception as e:
-        return {'err': type(e).__name__, 'input_unchanged': bool(np.array_equal(img, before))}
+        return {'err': type(e).__name__, 'input_unchanged': frame_same(img, before)}
 
 
 def spectrum_state(s):
@@ -730,9 +775,10 @@ def run_impl(c):
             out.append(res)
         return {'seq': out}
     if op == 'adc_seq':          # one frame object and one gain object shared by all calls of the history
-        img = mk_frame(c)
+        img = mk_frame(c)          # ONE frame object for the whole history, never rebuilt
         gain = mk_gain(c['gain'])
-        return {'seq': [call_adc(D, sc, img, gain) for sc in sub_cases(c)]}
+        return {'seq': [call_adc(D, sc, img, mk_gain(call['gain']) if 'gain' in call else gain)
+                        for call, sc in zip(c['calls'], sub_cases(c))]}
     if op == 'collect':
         return call_collect(D, c, np_img(c['img'], c.get('img_dtype')), mk_wave(c), qe_impl(c['qe']))
     if op == 'bayer':
@@ -939,8 +985,11 @@ def oracle(c, impl):
         for n, (call, sc, a) in enumerate(zip(c['calls'], sub_cases(c), impl['seq'])):
             m = oracle(sc, a)
             if m:
-                return (f'call {n + 1} of {len(c["calls"])} (capacity {call["sat"]}, dtype {call["dtype"]}) after calls '
-                        f'{[(x["sat"], x["dtype"]) for x in c["calls"][:n]]} with the same frame and gain objects: {m}')
+                gd = lambda x: x.get('gain', c['gain'])
+                return (f'call {n + 1} of {len(c["calls"])} (gain {gd(call)["v"]} as {gd(call).get("form")}, capacity '
+                        f'{call["sat"]}, dtype {call["dtype"]}) after calls '
+                        f'{[(gd(x)["v"], x["sat"], x["dtype"]) for x in c["calls"][:n]]} on the same {c["img_dtype"]} frame object '
+                        f'(every call is judged against the ORIGINAL frame {c["img"]}): {m}')
         return None
     exact = not has_spectrum(c)
     if op in ('bayer', 'adc') and pinned(c) == 'error':
